@@ -5,7 +5,7 @@ CONFIG = {
     "C02": {"timeout_s": {"quick": 900, "thorough": 7200}},
     "C03": {"floatlog": True, "timeout_s": {"quick": 900, "thorough": 7200}},
     "C04": {"features": "std", "floatlog": True, "timeout_s": {"quick": 900, "thorough": 14400}},
-    "C05": {"profiles": ["release", "chk"], "timeout_s": {"quick": 900, "thorough": 7200}},
+    "C05": {"profiles": ["release", "chk"], "sanitizers": True, "timeout_s": {"quick": 900, "thorough": 7200}},
     "C06": {"timeout_s": {"quick": 900, "thorough": 7200}},
     "C07": {"timeout_s": {"quick": 900, "thorough": 7200}},
     "C08": {"timeout_s": {"quick": 900, "thorough": 7200}},
